@@ -1,1 +1,3 @@
 import Ebu.Model.Upcast
+import Ebu.Model.Bus
+import Ebu.Spec.Bus
